@@ -272,6 +272,9 @@ def extract(unit, enums, sigs):
         toks = [toks[0]] + r_ctor_init(ctx, pre(init_toks)) + toks[1:]
     for rule in unit.get('pre_rules', []):
         toks = rule(ctx, toks)
+    for t_ in toks:
+        if t_.k == 'id' and t_.t in (unit.get('calls') or {}):
+            t_.t = unit['calls'][t_.t]; fire(ctx, 'overload-by-unit-map')
     toks = r_drop_streams(ctx, toks)
     toks = r_rangefor(ctx, toks)
     scan_decls(ctx, toks)
